@@ -477,10 +477,29 @@ KSI_IMPLEMENT_GETTER(KSI_CalendarHashChain, KSI_Integer*, aggregationTime, Aggre
 KSI_IMPLEMENT_GETTER(KSI_CalendarHashChain, KSI_DataHash*, inputHash, InputHash);
 KSI_IMPLEMENT_GETTER(KSI_CalendarHashChain, KSI_LIST(KSI_HashChainLink)*, hashChain, HashChain);
 
+/**
+ * Setter for a value the output hash of the chain is computed from: the output hash
+ * remembered from an earlier aggregation belongs to the previous value and is dropped.
+ */
+#define IMPLEMENT_HASHED_VALUE_SETTER(baseType, valueType, valueName, alias)	\
+KSI_DEFINE_SETTER(baseType, valueType, valueName, alias) {					\
+	int res = KSI_UNKNOWN_ERROR;											\
+	if (o == NULL) {														\
+		res = KSI_INVALID_ARGUMENT;											\
+		goto cleanup;														\
+	}																		\
+	o->valueName = valueName;												\
+	KSI_DataHash_free(o->outputHash);										\
+	o->outputHash = NULL;													\
+	res = KSI_OK;															\
+cleanup:																	\
+	return res;																\
+}
+
 KSI_IMPLEMENT_SETTER(KSI_CalendarHashChain, KSI_Integer*, publicationTime, PublicationTime);
 KSI_IMPLEMENT_SETTER(KSI_CalendarHashChain, KSI_Integer*, aggregationTime, AggregationTime);
-KSI_IMPLEMENT_SETTER(KSI_CalendarHashChain, KSI_DataHash*, inputHash, InputHash);
-KSI_IMPLEMENT_SETTER(KSI_CalendarHashChain, KSI_LIST(KSI_HashChainLink)*, hashChain, HashChain);
+IMPLEMENT_HASHED_VALUE_SETTER(KSI_CalendarHashChain, KSI_DataHash*, inputHash, InputHash);
+IMPLEMENT_HASHED_VALUE_SETTER(KSI_CalendarHashChain, KSI_LIST(KSI_HashChainLink)*, hashChain, HashChain);
 
 /**
  * KSI_HashChainLink
@@ -1179,9 +1198,9 @@ KSI_IMPLEMENT_GETTER(KSI_AggregationHashChain, KSI_LIST(KSI_HashChainLink) *, ch
 KSI_IMPLEMENT_SETTER(KSI_AggregationHashChain, KSI_Integer*, aggregationTime, AggregationTime);
 KSI_IMPLEMENT_SETTER(KSI_AggregationHashChain, KSI_LIST(KSI_Integer)*, chainIndex, ChainIndex);
 KSI_IMPLEMENT_SETTER(KSI_AggregationHashChain, KSI_OctetString*, inputData, InputData);
-KSI_IMPLEMENT_SETTER(KSI_AggregationHashChain, KSI_DataHash*, inputHash, InputHash);
-KSI_IMPLEMENT_SETTER(KSI_AggregationHashChain, KSI_Integer*, aggrHashId, AggrHashId);
-KSI_IMPLEMENT_SETTER(KSI_AggregationHashChain, KSI_LIST(KSI_HashChainLink) *, chain, Chain);
+IMPLEMENT_HASHED_VALUE_SETTER(KSI_AggregationHashChain, KSI_DataHash*, inputHash, InputHash);
+IMPLEMENT_HASHED_VALUE_SETTER(KSI_AggregationHashChain, KSI_Integer*, aggrHashId, AggrHashId);
+IMPLEMENT_HASHED_VALUE_SETTER(KSI_AggregationHashChain, KSI_LIST(KSI_HashChainLink) *, chain, Chain);
 
 int KSI_AggregationHashChainList_aggregate(KSI_AggregationHashChainList *chainList, KSI_CTX *ctx, int level, KSI_DataHash **outputHash) {
 	int res = KSI_UNKNOWN_ERROR;
